@@ -27,7 +27,7 @@ import (
 	"github.com/tigerwill90/fox"
 )
 
-const rule = "cases = (panic value in 13 kinds incl. wrapped http.ErrAbortHandler and net.OpError variants) x (response progress: nothing, informational header, final header, 101, partial body, flushed, one chunk streamed through ReadFrom / io.Copy from a source that then panics) x (handler kind: route, inner route middleware, route reached by ignoring a trailing slash, route of a router mounted inside a route, no-route, no-method, options) " +
+const rule = "cases = (panic value in 13 kinds incl. wrapped http.ErrAbortHandler and net.OpError variants) x (response progress: nothing, informational header, final header, 101, partial body, flushed, one chunk streamed through ReadFrom / io.Copy from a source that then panics) x (request context live / cancelled / past its deadline, in turn) x (handler kind: route, inner route middleware, route reached by ignoring a trailing slash, route of a router mounted inside a route, no-route, no-method, options) " +
 	"x (credential header names in canonical, lower-case, upper-case and mixed capitalisation set directly in the header map, plus ordinary headers); the product is enumerated completely; " +
 	"plus panics inside Updates and View functions after every prefix of a base sequence, after every single step and after every ordered pair of the steps that add, empty or remove method roots, and panics raised by middleware constructors during 8 write entry points; distinct by the tuple; non-trivial always"
 
@@ -311,6 +311,8 @@ func main() {
 	run.SetExtra("fault_enumeration", fmt.Sprintf("%d panic values x %d progress states x %d handler kinds, with every credential header in 5 capitalisations for the string and error values: enumerated completely (%d executions)", len(values), len(progress), len(kinds), n))
 }
 
+var ctxTurn int
+
 func one(run *kit.Run, f *fox.Router, cap *capture, v pv, pr, kind, hname, secret, before string) {
 	id := fmt.Sprintf("%s|%s|%s|%s", v.name, pr, kind, hname)
 	rep := map[string]string{"panic_value": v.name, "progress": pr, "handler": kind, "header": hname}
@@ -336,7 +338,21 @@ func one(run *kit.Run, f *fox.Router, cap *capture, v pv, pr, kind, hname, secre
 	req := &http.Request{Method: method, Host: "example.test", URL: &url.URL{Path: path, RawQuery: "q=1"}, Proto: "HTTP/1.1", ProtoMajor: 1, ProtoMinor: 1, RemoteAddr: "192.0.2.1:1",
 		Header: http.Header{"X-Ordinary": {"plain-value"}, "Accept": {"*/*"}}}
 	req.Header[hname] = []string{"Bearer " + secret}
-	req = req.WithContext(context.WithValue(context.Background(), planKey{}, pl))
+	// the request context is live, already cancelled (client gone away, a timeout middleware fired) or past its
+	// deadline, in turn: what the client is owed depends on the panic value and on the response progress only
+	base, ctxState := context.Background(), "live"
+	switch ctxTurn++; ctxTurn % 3 {
+	case 1:
+		cctx, cancel := context.WithCancel(base)
+		cancel()
+		base, ctxState = cctx, "cancelled"
+	case 2:
+		dctx, cancel := context.WithDeadline(base, time.Unix(1, 0))
+		defer cancel()
+		base, ctxState = dctx, "deadline-exceeded"
+	}
+	rep["request_context"] = ctxState
+	req = req.WithContext(context.WithValue(base, planKey{}, pl))
 	u := &under{h: http.Header{}}
 	cap.mu.Lock()
 	cap.kept = cap.kept[:0]
@@ -347,7 +363,7 @@ func one(run *kit.Run, f *fox.Router, cap *capture, v pv, pr, kind, hname, secre
 		f.ServeHTTP(u, req)
 	}()
 	fail := func(class, format string, a ...any) {
-		run.Violate(class+"|"+id, fmt.Sprintf("[panic=%s progress=%s handler=%s header=%s] ", v.name, pr, kind, hname)+fmt.Sprintf(format, a...), rep)
+		run.Violate(class+"|"+id, fmt.Sprintf("[panic=%s progress=%s handler=%s header=%s request-context=%s] ", v.name, pr, kind, hname, ctxState)+fmt.Sprintf(format, a...), rep)
 	}
 	log := strings.Join(u.log, "; ")
 	// containment
